@@ -1,3 +1,5 @@
 import CC.Thm.C01
 #print axioms CC.Thm.C01.core_eq_spec
 #print axioms CC.Thm.C01.block_conforms
+#print axioms CC.Thm.C01.keystream_conforms
+#print axioms CC.Thm.C01.apply_exact
